@@ -106,6 +106,7 @@ type C20Cell struct {
 	Shots     int     `json:"shots"`
 	Bound     int     `json:"bound"`
 	Codes     []int   `json:"codes,omitempty"`
+	Passes    int     `json:"passes,omitempty"`
 }
 
 func (c C20Cell) Name() string {
@@ -154,6 +155,9 @@ func (r *c20run) scenario(x *vs.X) func(end, msg string) error {
 		n := len(c.Entries)
 		if c.Mode == "codes" {
 			n = len(c.Codes)
+		}
+		if c.Passes > 1 {
+			n *= c.Passes
 		}
 		conf = map[string]any{"type": "grpc/json", "file": "/ammo20.grpc", "limit": n}
 	}
@@ -229,6 +233,15 @@ func (r *c20run) wantTimeout() time.Duration {
 
 func (r *c20run) checkEntries() error {
 	c := r.cell
+	if c.Passes > 1 {
+		var all []Entry
+		for p := 0; p < c.Passes; p++ {
+			all = append(all, c.Entries...)
+		}
+		c.Entries = all
+		r.cell.Entries = all
+		defer func() { r.cell.Entries = all[:len(all)/c.Passes] }()
+	}
 	if len(r.samples) != len(c.Entries) {
 		return fmt.Errorf("SAMPLES: %d samples for %d entries", len(r.samples), len(c.Entries))
 	}
@@ -446,6 +459,8 @@ func c20cells(thorough bool) []C20Cell {
 	for _, to := range []int{0, 2000} {
 		for _, g := range good {
 			out = append(out, C20Cell{Mode: "entries", Entries: []Entry{g}, TimeoutMs: to, Instances: 1})
+			// the same file read twice with a deviation: entries of the second pass are decoded into released (pooled) ammo
+			out = append(out, C20Cell{Mode: "entries", Entries: []Entry{g, good[(len(out)*7+3)%len(good)]}, TimeoutMs: to, Instances: 1, Bound: 1, Passes: 2})
 		}
 		// every bad entry between every pair of good entries (thinned by method in quick)
 		for gi, g := range good {
@@ -454,7 +469,7 @@ func c20cells(thorough bool) []C20Cell {
 					if !thorough && (gi+hi)%5 != 0 {
 						continue
 					}
-					out = append(out, C20Cell{Mode: "entries", Entries: []Entry{g, b, h}, TimeoutMs: to, Instances: 1})
+					out = append(out, C20Cell{Mode: "entries", Entries: []Entry{g, b, h}, TimeoutMs: to, Instances: 1, Bound: 1})
 				}
 			}
 		}
